@@ -173,15 +173,15 @@ func vh_C11_Handlers() {
 	if useOb {
 		vfAssert("effect-on-observe-handler", effectOn == id1)
 	} else {
-		vfAssert("effect-on-caller", effectOn == me)
+		vfAssert("lemma/effect-on-caller", effectOn == me)
 	}
 	switch {
 	case useSub:
 		vfAssert("onnext-on-subscribe-handler", nextOn == id2)
 	case useOb:
-		vfAssert("onnext-on-observe-handler", nextOn == id1)
+		vfAssert("lemma/onnext-on-observe-handler", nextOn == id1)
 	default:
-		vfAssert("onnext-on-caller", nextOn == me)
+		vfAssert("lemma/onnext-on-caller", nextOn == me)
 	}
 	vfReach("end")
 }
